@@ -75,4 +75,18 @@ pub fn run(ctx: &Ctx, p: &str) {
         ctx.eval(format!("{shape}:{}", if r.ok() { "printed" } else { "refused" }));
         if !r.ok() || r.stdout != c.want { ctx.violation(format!("{p}:cli:input-channel:{}:{ch}:wrong-output", c.label.split(':').next().unwrap()), format!("printed {:?} ({:?}); the reference result for the {} input bytes is {:?}", trunc(&r.line(), 140), r.status, c.content.len(), trunc(&String::from_utf8_lossy(&c.want), 140)), replay) }
     });
+    // where the OUTPUT goes: a regular file and a pseudo-terminal instead of the pipe (a program that formats for humans when
+    // it sees a tty must still print the same result)
+    let outs = [StdoutTo::File, StdoutTo::Terminal];
+    ctx.sweep("output-channels", "every input-reading command (input from a regular file) with standard output going to a regular file and to a pseudo-terminal instead of a pipe: the same bytes (the terminal's CR LF undone)", (cases.len() * outs.len()) as u64, |i| {
+        let c = &cases[i as usize / outs.len()]; let to = outs[i as usize % outs.len()];
+        let argv: Vec<&str> = c.argv.iter().map(|s| s.as_str()).collect(); let f = scratch_file("output-channels", i, "in", &c.content);
+        let cmd = Cmd::new(&argv).arg(&f).stdout_to(to); let r = cmd.run(Build::Release); rm(&f);
+        let shape = format!("{}:stdout={to:?}", c.label);
+        let replay = serde_json::json!({"sweep": "output-channels", "index": i, "entry": "CLI", "command": trunc(&cmd.shown(), 400), "stdout_to": format!("{to:?}"), "content_len": c.content.len()});
+        ctx.sample("output-channels", || replay.clone());
+        if r.crashed() { ctx.eval(format!("{shape}:{}", r.crash_kind())); ctx.panic_violation(format!("{p}:cli:output-channel:{}:{to:?}:{}", c.argv[..2.min(c.argv.len())].join("-"), r.crash_kind()), r.describe(), replay); return; }
+        ctx.eval(format!("{shape}:{}", if r.ok() { "printed" } else { "refused" }));
+        if !r.ok() || r.stdout != c.want { ctx.violation(format!("{p}:cli:output-channel:{}:{to:?}:wrong-output", c.label.split(':').next().unwrap()), format!("with standard output to a {to:?}: printed {:?} ({:?}); the reference result is {:?}", trunc(&r.line(), 140), r.status, trunc(&String::from_utf8_lossy(&c.want), 140)), replay) }
+    });
 }
